@@ -23,20 +23,35 @@ pub mod vsync {
 pub mod vthread {
     pub use shuttle::thread::*;
 }
+/// scheduling point inserted at function entries of the plugin / analysis code (simulation build only)
+#[inline(never)]
+pub fn vyield() {
+    shuttle::thread::yield_now();
+}
 '''
+
+
+# single-line function headers with a body: `fn name(...) [-> T] [where ..] {`  (not `const fn`, not declarations ending in `;`)
+FN_OPEN = re.compile(r"^[ \t]*(?:pub(?:\([^)]*\))?[ \t]+)?(?:unsafe[ \t]+)?fn[ \t]+\w+[^;{}\n]*\{[ \t]*$", re.M)
 
 
 def main():
     shutil.rmtree(DST, ignore_errors=True)
     os.makedirs(DST)
     shutil.copytree(os.path.join(SRC, "src"), os.path.join(DST, "src"))
-    n_sync = n_thread = n_tl = 0
+    n_sync = n_thread = n_tl = n_yield = 0
     for root, _dirs, files in os.walk(os.path.join(DST, "src")):
         for f in files:
             if not f.endswith(".rs"):
                 continue
             p = os.path.join(root, f)
             s = open(p, encoding="utf-8").read()
+            rel = os.path.relpath(p, os.path.join(DST, "src"))
+            if rel.startswith(("plugin/", "analysis/", "input_text/")) and "/test" not in rel and not f.startswith("test"):
+                # a scheduling point at the entry of every function of the plugins and of the analysis core, so that two
+                # tasks can be *inside* the same plugin call at the same time (e.g. one of them holding a lock)
+                s, k = FN_OPEN.subn(lambda m: m.group(0) + " crate::vyield();", s)
+                n_yield += k
             s2, a = re.subn(r"(?<![A-Za-z0-9_:])(::)?std::sync\b", "crate::vsync", s)
             s2, b = re.subn(r"(?<![A-Za-z0-9_:])(::)?std::thread\b", "crate::vthread", s2)
             s2, c = re.subn(r"(?<![A-Za-z0-9_:])thread_local!", "shuttle::thread_local!", s2)
@@ -53,7 +68,7 @@ def main():
     cargo = cargo.replace("[dependencies] # this should be sorted", "[dependencies]\nshuttle = \"0.9\"")
     cargo += "\n[lib]\ncrate-type = [\"rlib\"]\n"
     open(os.path.join(DST, "Cargo.toml"), "w", encoding="utf-8").write(cargo)
-    print("shadow: std::sync rewritten %d times, std::thread %d, thread_local! %d" % (n_sync, n_thread, n_tl))
+    print("shadow: std::sync rewritten %d times, std::thread %d, thread_local! %d, yield points inserted %d" % (n_sync, n_thread, n_tl, n_yield))
 
 
 if __name__ == "__main__":
